@@ -28,7 +28,10 @@ static unsigned char* unhex(const char* s, size_t* n) {
     size_t l, i; unsigned char* b;
     if (!strcmp(s, "-")) { *n = 0; b = (unsigned char*)malloc(1); return b; }
     l = strlen(s) / 2; b = (unsigned char*)malloc(l + 1);
-    for (i = 0; i < l; i++) { unsigned v; sscanf(s + 2 * i, "%2x", &v); b[i] = (unsigned char)v; }
+    for (i = 0; i < l; i++) {   /* table-free hex decoding (sscanf per byte dominated the run time of large inputs) */
+        int const h = s[2 * i], w = s[2 * i + 1];
+        b[i] = (unsigned char)((((h <= '9') ? h - '0' : (h | 32) - 'a' + 10) << 4) | ((w <= '9') ? w - '0' : (w | 32) - 'a' + 10));
+    }
     *n = l; return b;
 }
 static void puthex(const unsigned char* b, size_t n) {
